@@ -1,0 +1,6 @@
+//go:build !verif
+
+package translate
+
+// verifScopeOp is the no-op twin of the verification trace hook (see verif_on.go); it inlines to nothing.
+func verifScopeOp(*Scope, string, ...any) {}
